@@ -27,6 +27,9 @@ def run(ctx: Context) -> None:
         "instantiation, is compared with the number of bits the largest intermediate weight needs for "
         "multiplicities summing to 40 (computed by the checker). Decides this necessary clause only; the "
         "equality of the kernels with their combinatorial definitions is numerical."
+        " Further clauses decided on the python (numba) kernels and on the clang AST: no absolute floating thresholds; zero tests of sums only on "
+        "summands that cannot cancel; in-place rescaling helpers return the factor they applied; norms of the input are never divisors without a zero "
+        "test; entries of input arrays are updated, not overwritten; shift widths."
     )
     ctx.rule("C04b", "integer carriers of binomial weights in the permanent kernels have at least the bits the stated multiplicity range needs")
     cxx.check_widths(ctx, "C04b", TOTAL)
